@@ -2207,9 +2207,58 @@ XSLTEngineImpl::cloneToResultTree(
         case XalanNode::ATTRIBUTE_NODE:
             if (isElementPending() == true)
             {
+                const XalanDOMString&   theName = node.getNodeName();
+                const XalanDOMString&   theNamespace = node.getNamespaceURI();
+
+                const XalanDOMString::size_type     theColon =
+                    indexOf(theName, XalanUnicode::charColon);
+
+                // An attribute in a namespace needs its prefix to be bound
+                // to that namespace in the result, or the output is not
+                // namespace-well-formed.
+                if (theNamespace.empty() == false &&
+                    theColon < theName.length())
+                {
+                    const ECGetCachedString     prefixGuard(*m_executionContext);
+
+                    XalanDOMString&     thePrefix = prefixGuard.get();
+
+                    substring(theName, thePrefix, 0, theColon);
+
+                    const XalanDOMString* const     theBoundNamespace =
+                        getResultNamespaceForPrefix(thePrefix);
+
+                    if (theBoundNamespace == 0 ||
+                        equals(*theBoundNamespace, theNamespace) == false)
+                    {
+                        if (m_resultNamespacesStack.prefixIsPresentLocal(thePrefix) == true)
+                        {
+                            // The element already declares the prefix
+                            // for another namespace...
+                            reportDuplicateNamespaceNodeError(thePrefix, locator);
+                        }
+                        else
+                        {
+                            const ECGetCachedString     nameGuard(*m_executionContext);
+
+                            XalanDOMString&     theDeclarationName = nameGuard.get();
+
+                            theDeclarationName = DOMServices::s_XMLNamespaceWithSeparator;
+                            theDeclarationName += thePrefix;
+
+                            addResultAttribute(
+                                getPendingAttributesImpl(),
+                                theDeclarationName,
+                                theNamespace,
+                                false,
+                                locator);
+                        }
+                    }
+                }
+
                 addResultAttribute(
                         getPendingAttributesImpl(),
-                        node.getNodeName(),
+                        theName,
                         node.getNodeValue(),
                         true,
                         locator);
